@@ -26,7 +26,7 @@ def _run_parallel(ctx, first, count, tier, procs):
         n = min(per, first + count - lo)
         if n <= 0:
             break
-        cmd = "%s run %d %d %s 2>/dev/null | grep -a '^R '" % (exe, lo, n, tier)
+        cmd = "%s run %d %d %s model 2>/dev/null | grep -a '^R '" % (exe, lo, n, tier)
         ps.append((lo, n, subprocess.Popen(["timeout", "2400", "bash", "-c", cmd], cwd=ctx.tmp, stdout=subprocess.PIPE, universal_newlines=True, errors="replace")))
     recs, missing = [], []
     for lo, n, p in ps:
@@ -44,12 +44,95 @@ def _run_parallel(ctx, first, count, tier, procs):
     return recs, missing
 
 
+MODEL_IMPORTS = ["LdkV.Prim.U64", "LdkV.Gen.Consts", "LdkV.Model.PackageTimer", "LdkV.Model.OnchainClaims"]
+MODEL_PRELUDE = """
+Open Scope Z_scope.
+Definition code_of (b : balance) : Z * Z :=
+  match b with BalAwaiting a => (1, a) | BalContentious a => (2, a) | BalMaybeTimeout a => (3, a) | BalMaybePreimage a => (4, a) end.
+Definition obs_of (c : closure) (st : mstate) : Z * list (Z * Z) := (spendable_total st, map code_of (balances c st)).
+Fixpoint scan (c : closure) (st : mstate) (ops : list op) : list (Z * list (Z * Z)) :=
+  match ops with [] => [] | o :: t => let st' := step c st o in obs_of c st' :: scan c st' t end.
+Definition scan_all (c : closure) (k0 : list nat) (ops : list op) := obs_of c (init c k0) :: scan c (init c k0) ops.
+"""
+KIND = {"A": 1, "C": 2, "T": 3, "M": 4, "X": 9}
+
+
+def _parse_model_trace(m):
+    """-> (coq expression, [(position, expected observation)])"""
+    toks = m.split(" ")
+    hd = toks[0][1:].split("|")
+    side = "HolderTx" if hd[0] == "holder" else "CounterpartyTx"
+    htlcs = []
+    for h in [x for x in hd[4].split(",") if x]:
+        o, amt, exp, has = h.split(".")
+        htlcs.append("mkHtlc %s %s %s %s" % ("true" if o == "1" else "false", amt, exp, "true" if has == "1" else "false"))
+    known0 = [x for x in hd[5].split(",") if x]
+    ops, marks = [], []
+    for t in toks[1:]:
+        if t.startswith("P"):
+            ops.append("OpPreimage %s%%nat" % t[1:])
+        elif t.startswith("B") or t.startswith("S"):
+            sp = []
+            for x in [y for y in t[1:].split(",") if y]:
+                i, ours, pre = x.split(".")
+                sp.append("mkSpend %s%%nat %s %s" % (i, "true" if ours == "1" else "false", "true" if pre == "1" else "false"))
+            ops.append("OpBlock %s [%s]" % ("true" if t.startswith("B") else "false", "; ".join(sp)))
+        elif t.startswith("O"):
+            body, handed = t[1:].split("#")
+            bl = sorted((KIND[x[0]], int(x[1:])) for x in body.split(".") if x)
+            marks.append((len(ops), (int(handed), bl)))
+    expr = "scan_all (mkClosure %s %s %s %s [%s]) [%s] [%s]" % (
+        side, hd[1], hd[2], hd[3], "; ".join(htlcs), "; ".join(k + "%nat" for k in known0), "; ".join(ops))
+    return expr, marks
+
+
+def model_correspondence(ctx, recs, limit):
+    """The real monitor's balances and cumulative spendable value after every block against Model/OnchainClaims.v."""
+    import ast
+    cases = []
+    for r in recs:
+        if not r.get("ok") or r.get("aborted"):
+            continue
+        for m in r.get("model", []):
+            if m.startswith("H"):
+                cases.append((r["seed"], m))
+        if len(cases) >= limit:
+            break
+    if not cases:
+        return [], 0, 0
+    exprs, marks = [], []
+    for seed, m in cases:
+        e, mk = _parse_model_trace(m)
+        exprs.append(e)
+        marks.append(mk)
+    vals = ctx.coq_eval("corr_onchain", MODEL_IMPORTS, exprs, prelude=MODEL_PRELUDE, shards=min(core.NPROC, max(1, len(exprs) // 4)))
+    dis, nobs = [], 0
+    for (seed, m), mk, v in zip(cases, marks, vals):
+        try:
+            res = ast.literal_eval(v.replace(";", ","))
+        except (ValueError, SyntaxError):
+            dis.append({"seed": seed, "error": "unparsable model output", "value": v[:200]})
+            continue
+        for pos, (handed, bl) in mk:
+            nobs += 1
+            if pos >= len(res):
+                dis.append({"seed": seed, "error": "model trace shorter than the observation"})
+                break
+            msp, mbl = res[pos]
+            mbl = sorted((int(a), int(b)) for a, b in mbl)
+            if msp != handed or mbl != bl:
+                dis.append({"seed": seed, "op_index": pos, "model": {"spendable_total": msp, "balances": mbl},
+                            "impl": {"spendable_total": handed, "balances": bl}, "trace_head": m[:300]})
+                break
+    return dis, len(cases), nobs
+
+
 def run(ctx):
     import time
     t0 = time.time()
     rng = ctx.rng.fork("c07-onchain")
     tier = "quick" if ctx.tier == "quick" else "thorough"
-    count = 900 if ctx.tier == "quick" else 40000
+    count = 600 if ctx.tier == "quick" else 40000
     first = 1 + rng.below(10 ** 9)
     recs, missing = _run_parallel(ctx, first, count, tier, min(core.NPROC, 14))
     ctx.timed("onchain_s", time.time() - t0)
@@ -92,9 +175,11 @@ def run(ctx):
     ctx.coverage["onchain_first_seed"] = first
     ok = [r for r in recs if r.get("ok") and not r.get("aborted")]
     if ok:
-        ctx.samples.append(ok[0])
-        ctx.samples.append(ok[len(ok) // 2])
-    return fails, nontrivial
+        for r in (ok[0], ok[len(ok) // 2]):
+            r = dict(r)
+            r["model"] = [m[:400] for m in r.get("model", [])]
+            ctx.samples.append(r)
+    return fails, nontrivial, recs
 
 
 def replay(ctx, sc):
